@@ -1,0 +1,112 @@
+//go:build verif
+
+package fp
+
+// Contracts for the root package fp, checked by /verif/govc.  Comment-only file.
+//
+// Every position has its own type parameter.  Labelled families need Named type
+// arguments: they are verified at the pairwise distinct types RuntimeNamed[VT_i].
+// Multi-valued accessors (Init/Tail/Unapply) are observed through an arbitrary
+// continuation k: "k(t.Unapply()) = k(t.I1, …, t.IN) for every k" says that Unapply
+// returns exactly the N fields, in order.
+
+// ---- Tuple{N} / Labelled{N} accessors (fp.go, tuple_gen.go, labelled_gen.go) -------------
+//
+//@ lemma tuple1Def[T1 any](t Tuple1[T1])
+//@   prop C14
+//@   ensures Eq(t.Head(), t.I1)
+//@   ensures Eq(t.Tail(), Unit{})
+//
+//@ lemma labelled1Def[T1 Named](t Labelled1[T1])
+//@   prop C14
+//@   inst RuntimeNamed[VT_1]
+//@   ensures Eq(t.Head(), t.I1)
+//@   ensures Eq(t.Tail(), Unit{})
+//
+//@ schema N=2..21
+//@ lemma tuple{N}Def[<<i=1..N|, |T$i>>, R any](t Tuple{N}[<<i=1..N|, |T$i>>], k func(<<i=1..N|, |T$i>>) R, ki func(<<i=1..N-1|, |T$i>>) R, kt func(<<i=2..N|, |T$i>>) R)
+//@   prop C14
+//@   ensures Eq(t.Head(), t.I1)
+//@   ensures Eq(t.Last(), t.I{N})
+//@   ensures EqT(ki(t.Init()), ki(<<i=1..N-1|, |t.I$i>>))
+//@   ensures EqT(kt(t.Tail()), kt(<<i=2..N|, |t.I$i>>))
+//@   ensures EqT(k(t.Unapply()), k(<<i=1..N|, |t.I$i>>))
+//
+//@ lemma labelled{N}Def[<<i=1..N|, |T$i>> Named, R any](t Labelled{N}[<<i=1..N|, |T$i>>], k func(<<i=1..N|, |T$i>>) R, ki func(<<i=1..N-1|, |T$i>>) R, kt func(<<i=2..N|, |T$i>>) R)
+//@   prop C14
+//@   inst <<i=1..N|, |RuntimeNamed[VT_$i]>>, VT_0
+//@   ensures Eq(t.Head(), t.I1)
+//@   ensures Eq(t.Last(), t.I{N})
+//@   ensures EqT(ki(t.Init()), ki(<<i=1..N-1|, |t.I$i>>))
+//@   ensures EqT(kt(t.Tail()), kt(<<i=2..N|, |t.I$i>>))
+//@   ensures EqT(k(t.Unapply()), k(<<i=1..N|, |t.I$i>>))
+//@ schema end
+//
+// ---- Func{N} methods (fp.go, func_gen.go) ------------------------------------------------
+//
+//   f.ApplyFirst(a1)(a2) = f(a1, a2) = f.ApplyLast(a2)(a1);  f.Widen() = f
+//@ lemma func2Def[A1, A2, R any](f Func2[A1, A2, R], a1 A1, a2 A2)
+//@   prop C14
+//@   ensures EqT(f.ApplyFirst(a1)(a2), f(a1, a2))
+//@   ensures EqT(f.ApplyLast(a2)(a1), f(a1, a2))
+//@   ensures EqT(f.Widen()(a1, a2), f(a1, a2))
+//
+//   f.ApplyFirst{N-1}(a1, …, a{N-1})(aN) = f(a1, …, aN) = f.ApplyLast{N-1}(a2, …, aN)(a1);  f.Widen() = f
+//@ schema N=3..9
+//@ lemma func{N}Def[<<i=1..N|, |A$i>>, R any](f Func{N}[<<i=1..N|, |A$i>>, R], <<i=1..N|, |a$i A$i>>)
+//@   prop C14
+//@   ensures EqT(f.ApplyFirst{N-1}(<<i=1..N-1|, |a$i>>)(a{N}), f(<<i=1..N|, |a$i>>))
+//@   ensures EqT(f.ApplyLast{N-1}(<<i=2..N|, |a$i>>)(a1), f(<<i=1..N|, |a$i>>))
+//@   ensures EqT(f.Widen()(<<i=1..N|, |a$i>>), f(<<i=1..N|, |a$i>>))
+//@ schema end
+//
+//   f.Apply() = f(Unit{})
+//@ lemma func0Def[R any](f Func0[R])
+//@   prop C14
+//@   ensures EqT(f.Apply(), f(Unit{}))
+//
+// ---- Compose{N}(f1, …, fN)(a) = fN(…f2(f1(a))…) ------------------------------------------
+//
+//@ lemma composeDef[A1, A2, R any](f1 func(A1) A2, f2 func(A2) R, a A1)
+//@   prop C14
+//@   ensures EqT(Compose(f1, f2)(a), f2(f1(a)))
+//@   ensures EqT(Compose2(f1, f2)(a), f2(f1(a)))
+//
+//@ schema N=3..5
+//@ lemma compose{N}Def[<<i=1..N|, |A$i>>, R any](<<i=1..N-1|, |f$i Func1[A$i, A$(i+1)]>>, f{N} Func1[A{N}, R], a A1)
+//@   prop C14
+//@   ensures EqT(Compose{N}(<<i=1..N|, |f$i>>)(a), <<i=N..1|~|f$i(>>a<<i=1..N||)>>)
+//@ schema end
+//
+// ---- Id{N}(a1, …, a{N-1}, r) = r ---------------------------------------------------------
+//
+//@ lemma idDef[T any](t T)
+//@   prop C14
+//@   ensures Eq(Id(t), t)
+//
+//@ schema N=2..9
+//@ lemma id{N}Def[<<i=1..N-1|, |A$i>>, R any](<<i=1..N-1|, |a$i A$i>>, r R)
+//@   prop C14
+//@   ensures Eq(Id{N}(<<i=1..N-1|, |a$i>>, r), r)
+//@ schema end
+//
+// ---- Flip / Flip2 / Const / With / Test (fp.go) ------------------------------------------
+//
+//@ lemma flipDef[A, B, R any](c Func1[A, Func1[B, R]], f func(A, B) R, a A, b B)
+//@   prop C14
+//@   ensures EqT(Flip(c)(b)(a), c(a)(b))
+//@   ensures EqT(Flip2(f)(b)(a), f(a, b))
+//
+//@ lemma constDef[B, A any](a A, b B, s func() A)
+//@   prop C14
+//@   ensures Eq(Const[B](a)(b), a)
+//@   ensures EqT(ConstS[B](s)(b), s())
+//
+//@ lemma withDef[A, B any](w func(A, B) A, p func(A, B) bool, a A, b B)
+//@   prop C14
+//@   ensures EqT(With(w, b)(a), w(a, b))
+//@   ensures EqT(Test(p, b)(a), p(a, b))
+//
+//@ lemma testWithDef[A, B any](g func(A) B, p Predicate[B], a A)
+//@   prop C14
+//@   ensures EqT(TestWith(g)(p)(a), p(g(a)))
